@@ -744,6 +744,13 @@ fn se_spaces() -> Vec<(Spec, Vec<V>)> {
     let s2 = Spec::Se2 { weight: 0.7, bounds: Some(vec![(-1.0, 2.0), (0.0, 4.0), (-1.0, 2.5)]) };
     let (p2, _) = as_parts(&s2).unwrap();
     v.push((s2, compound_lattice(&p2)));
+    // SE(2) whose REQUESTED yaw interval is a full turn long or longer without containing [-pi, pi], reaches
+    // beyond it, or is a sliver: the rotation component is whatever SO2StateSpace::new makes of that interval
+    for yaw in [(0.0, 2.0 * PI), (-10.0, 1.0), (-1.0, 360.0), (-4.0, 4.0), (3.0, 3.1), (-PI, 0.0)] {
+        let s2 = Spec::Se2 { weight: 0.5, bounds: Some(vec![(-5.0, 5.0), (-5.0, 5.0), yaw]) };
+        let (p2, _) = as_parts(&s2).unwrap();
+        v.push((s2, compound_lattice(&p2)));
+    }
     v
 }
 
